@@ -104,6 +104,9 @@ pub struct Scope {
     pub type_indexes: IndexMap<Type, u32>,
     /// The map from interface name (i.e. id) to encoded instance index.
     pub instances: IndexMap<String, u32>,
+    /// The map from an interface that has no id (an instance imported or exported under a
+    /// plain name) to its encoded instance index.
+    unnamed_instances: HashMap<InterfaceId, u32>,
     /// The map of import/export name to their alias indexes.
     type_aliases: IndexMap<String, u32>,
     /// The map of resource names to their encoded indexes.
@@ -302,8 +305,19 @@ impl<'a> TypeEncoder<'a> {
 
         for (name, used) in uses {
             let interface = &self.0[used.interface];
-            let iid = interface.id.as_ref().expect("interface should have an id");
-            let instance = state.current.instances[iid];
+            // A used interface is named by its id; an interface without an id (a decoded
+            // instance under a plain name) is the instance imported or exported by that name.
+            let (iid, instance) = match interface.id.as_ref() {
+                Some(iid) => (iid.as_str(), state.current.instances[iid]),
+                None => (
+                    "<unnamed>",
+                    *state
+                        .current
+                        .unnamed_instances
+                        .get(&used.interface)
+                        .expect("an interface without an id should be in scope when it is used"),
+                ),
+            };
             let index = state.current.encodable.type_count();
             let export: &String = used.name.as_ref().unwrap_or(name);
             let kind = interface.exports.get(export).unwrap();
@@ -437,7 +451,11 @@ impl<'a> TypeEncoder<'a> {
     }
 
     fn import_deps(&self, state: &mut State, id: InterfaceId) {
-        let iid = self.0[id].id.as_ref().expect("interface should have an id");
+        // An interface without an id cannot be imported as a dependency: it is in scope only
+        // if the type being encoded imports or exports it by name before it is used.
+        let Some(iid) = self.0[id].id.as_ref() else {
+            return;
+        };
         if state.current.instances.contains_key(iid) {
             return;
         }
@@ -835,6 +853,8 @@ impl<'a> TypeEncoder<'a> {
                 if let Some(iid) = &self.0[id].id {
                     log::debug!("instance index {import_index} ({iid}) is available for aliasing");
                     state.current.instances.insert(iid.clone(), import_index);
+                } else {
+                    state.current.unnamed_instances.insert(id, import_index);
                 }
             }
             ItemKind::Component(_) => {
@@ -970,6 +990,8 @@ impl<'a> TypeEncoder<'a> {
         if let ItemKind::Instance(id) = kind {
             if let Some(iid) = &self.0[id].id {
                 state.current.instances.insert(iid.clone(), instance_index);
+            } else {
+                state.current.unnamed_instances.insert(id, instance_index);
             }
         }
 
